@@ -441,8 +441,24 @@ pub fn worker(def: &CheckDef, a: &WorkerArgs) -> i32 {
                 ExecOut::Viol(v) => {
                     bh.u(0xDEAD);
                     if a.careful_block.is_some() {
-                        // careful mode is only used to locate crashes/hangs; ordinary violations were
-                        // (or will be) reported by the normal worker for this block
+                        // careful mode locates crashes/hangs. An ordinary violation is recorded here too, unminimised:
+                        // if the normal worker died while MINIMISING it (a shrunken candidate can make the library
+                        // hang), this record is what the parent reports instead of a harness error
+                        if known_match(&known, def.id, &v.clause, &s).is_none() && viols.len() < 2 {
+                            let mut w = s.clone();
+                            w.clause = v.clause.clone();
+                            w.detail = v.detail.clone();
+                            let path = format!("{}/{}-s{}-i{}{}.json", replay_dir(), def.id, a.seed, i, build_tag());
+                            let _ = std::fs::create_dir_all(replay_dir());
+                            let _ = std::fs::write(&path, w.to_json().pretty());
+                            let mut vj = J::obj();
+                            vj.set("index", J::Int(i as i64));
+                            vj.set("clause", J::s(&v.clause));
+                            vj.set("detail", J::s(&format!("{} [not minimised: the worker did not survive minimising it]", v.detail)));
+                            vj.set("path", J::s(&path));
+                            vj.set("config", J::Obj(s.cfg.iter().map(|(k, v)| (k.clone(), J::Int(*v))).collect()));
+                            viols.push(vj);
+                        }
                         continue;
                     }
                     if let Some(kf) = known_match(&known, def.id, &v.clause, &s) {
@@ -777,10 +793,29 @@ pub fn run_batch(def: &CheckDef, tier: Tier, seed: u64) -> BatchResult {
                                 crash_viols.push(vj);
                             }
                             None => {
-                                harness_error = Some(format!("worker {} died in block {} but the block completes in a fresh process", id, b));
+                                // the block completes run by run: did it contain an ordinary violation whose
+                                // minimisation killed the worker?
+                                let cres = std::fs::read_to_string(format!("{}/res-careful{}.json", out, b)).ok().and_then(|t| json::parse(&t).ok());
+                                let cv: Vec<J> = cres.as_ref().and_then(|j| j.get("viols")).and_then(|x| x.as_arr()).map(|a| a.to_vec()).unwrap_or_default();
+                                if cv.is_empty() {
+                                    harness_error = Some(format!("worker {} died in block {} but the block completes in a fresh process", id, b));
+                                } else {
+                                    crash_viols.extend(cv);
+                                }
                             }
                         }
-                        if crash_viols.len() >= 4 || harness_error.is_some() {
+                        if crash_viols.len() >= 2 {
+                            // enough process-level findings (each costs minutes of watchdog time): stop the batch;
+                            // workers that are still running keep what they wrote so far
+                            for (kid, k) in kids.iter_mut() {
+                                if *kid != id && !k.finished {
+                                    let _ = k.proc.kill();
+                                    let _ = k.proc.wait();
+                                    k.finished = true;
+                                }
+                            }
+                            break;
+                        } else if harness_error.is_some() {
                             live -= 1;
                         } else {
                             // continue with the blocks after the crashed one
